@@ -9,6 +9,7 @@ import TxV.Drv.C16
 import TxV.Drv.C04
 import TxV.Drv.C18
 import TxV.Drv.Cfg
+import TxV.Drv.TorState
 open TxV.Drv
 
 def main (args : List String) : IO UInt32 := do
@@ -25,5 +26,6 @@ def main (args : List String) : IO UInt32 := do
   | ["C04"] => loop stdin stdout () C04.step; return 0
   | ["C18"] => loop stdin stdout () C18.step; return 0
   | ["Cfg"] => loop stdin stdout ({} : TxV.Config.St) Cfg.step; return 0
+  | ["TorState"] => loop stdin stdout ({} : TxV.TorState.St) TorState.step; return 0
   | ["Ctl"] => loop stdin stdout ({} : Ctl.St) Ctl.step; return 0
   | _ => IO.eprintln "usage: driver <property-id>"; return 2
